@@ -20,6 +20,9 @@ def value(rng, T):
     if T == "INTVECTOR": return [IV([rng.randrange(0, 9) for _ in range(rng.randrange(0, 3))])]
     if T == "FLOATVECTOR": return [FV([fbits(float(rng.randrange(0, 4))) for _ in range(rng.randrange(0, 3))])]
     body = rng.choice([Z(rng.randrange(0, 50)), L(Z(1), Z(2), I("INTEGER.+")), B(True), L(), N(rng.choice(NAMES)), L(N(rng.choice(NAMES)), Z(5))])
+    if rng.random() < 0.06:      # a LARGE value: more points than any configured point limit
+        k = rng.choice([99, 100, 101, 130, 300])
+        body = L(*[rng.choice([Z(i % 5), I("NOOP"), N("q")]) for i in range(k)])
     if T == "CODE": return [I("CODE.QUOTE"), body]
     return []      # EXEC.DEFINE takes the next EXEC item itself
 
@@ -32,8 +35,12 @@ def op(rng, modelled):
         items = value(rng, T) + [I("NAME.QUOTE"), N(n), I(T + ".DEFINE")]
         if T == "EXEC":
             # the bound item may itself be a (bound or unbound) name: an alias, resolved at USE time
-            items.append(rng.choice([Z(rng.randrange(0, 50)), L(Z(3), I("INTEGER.DUP")), B(False), N(rng.choice(NAMES)), N(rng.choice(NAMES)), L(N(rng.choice(NAMES)))]))
+            items.append(rng.choice([Z(rng.randrange(0, 50)), L(Z(3), I("INTEGER.DUP")), B(False), N(rng.choice(NAMES)), N(rng.choice(NAMES)), L(N(rng.choice(NAMES))),
+                                     L(*[Z(i % 5) for i in range(rng.choice([99, 100, 101, 200]))])]))
         return items
+    if k < 0.46:                     # a bare NAME.QUOTE / a bare DEFINE that takes whatever name waits on the NAME stack
+        T = rng.choice([t for t in TYPES if t + ".DEFINE" in modelled and t != "EXEC"])
+        return rng.choice([[I("NAME.QUOTE")], value(rng, T) + [I(T + ".DEFINE")], [I("NAME.QUOTE")] + value(rng, T) + [I(T + ".DEFINE")]])
     if k < 0.75: return [N(n)]                                  # use
     if k < 0.85: return [I("NAME.QUOTE"), rng.choice([Z(1), L(Z(2)), I("NOOP")]), N(n)]   # quote survives non-identifiers
     if k < 0.92: return [I("NAME.QUOTE"), N(n), I("CODE.DEFINITION")]
